@@ -39,3 +39,257 @@ PROPS["C01"] = dict(
         "only 64-bit x86 code can be executed on this host",
     ],
 )
+
+
+# ---------------------------------------------------------------- C11 / C12 (assembler as oracle)
+
+def _cfg_tag(p):
+    t, f = p["target"], p["flags"]
+    if t == "avx":
+        return "avx-%s" % ("avx2" if f & (1 << 11) else "noavx2")
+    if t == "mmx":
+        return "mmx-%s" % ("mmxext" if f & (1 << 1) else "nommxext")
+    lvl = "sse2"
+    for bit, name in ((1, "sse3"), (2, "ssse3"), (3, "sse41"), (4, "sse42")):
+        if f & (1 << bit):
+            lvl = name
+    return "sse-" + lvl
+
+
+def _asm_sig(prop, msg, p=None):
+    import re
+    if prop == "C11" and p is not None:
+        tag = _cfg_tag(p)
+        m = re.search(r"`(\w+)' is not supported", msg) or re.search(r"unsupported instruction `(\w+)'", msg) or \
+            re.search(r"mismatch for `(\w+)'", msg)
+        if m:
+            return "feature-gate:%s:%s" % (tag, m.group(1))
+        if "SSE register" in msg:
+            return "feature-gate:%s:uses-xmm" % tag
+        return "feature-gate:%s:other" % tag
+    if prop == "C12":
+        m = re.search(r"listing assembles to `(\S+).*?`, orc emitted `(\S+)", msg)
+        if m:
+            return "listing-mismatch:%s->%s" % (m.group(1), m.group(2))
+        if "rejected by GNU as" in msg:
+            m = re.search(r"offending line: (\S+)", msg)
+            reason = re.sub(r"`[^']*'", "", msg.split("GNU as: ", 1)[-1].split("  [")[0]).strip()
+            return "listing-rejected:%s:%s" % (m.group(1) if m else "?", re.sub(r"[^A-Za-z0-9 -]", "", reason)[:50])
+        return "listing-problem"
+    m = re.search(r"`(\w+)' is not supported", msg)
+    if m:
+        return "feature-gate:" + m.group(1)
+    if "SSE register" in msg:
+        return "feature-gate:mmx-uses-xmm"
+    m = re.search(r"unsupported instruction `(\w+)'", msg)
+    if m:
+        return "feature-gate:" + m.group(1)
+    return "feature-gate:other"
+
+
+def _asm_oracle_worker(args):
+    import asmcheck, tempfile, shutil
+    prop, recfile = args
+    recs = asmcheck.parse_records(recfile)
+    tmpdir = tempfile.mkdtemp(prefix="asmchk", dir=os.path.dirname(recfile))
+    try:
+        if prop == "C12":
+            problems, n = asmcheck.check_c12(recs, tmpdir)
+        else:
+            # C11 judges only listings that assemble at all (an unassemblable listing is C12's finding)
+            problems, n = asmcheck.check_c11(recs, tmpdir)
+        out = []
+        for rec, msg, inconclusive in problems:
+            out.append(dict(target=rec["target"], flags=rec["flags"], bits=rec["bits"], stream=rec.get("stream", ""),
+                            prog=rec["prog"], msg=msg, inconclusive=inconclusive, name=rec.get("name", "")))
+        distinct = len({(r["hash"], r["target"], r["flags"]) for r in recs})
+        samples = []
+        for r in recs[:3]:
+            samples.append("target=%s flags=0x%x bits=%d\n%s# listing: %d lines, code %d bytes" % (
+                r["target"], r["flags"], r["bits"], r["prog"], r["asm"].count("\n"), len(r["code"])))
+        return dict(n=n, records=len(recs), problems=out, distinct=distinct, samples=samples)
+    finally:
+        shutil.rmtree(tmpdir, ignore_errors=True)
+
+
+import os
+
+
+def asm_check(prop, tier, scale, cfg, ev):
+    import runner as R
+    import multiprocessing
+    import shutil
+    exe = R.build_driver_binary(prop, cfg["variant"], cfg["sources"], cfg.get("cflags", ()))
+    outdir = os.path.join(R.WORK, "runs", prop, "records")
+    shutil.rmtree(outdir, ignore_errors=True)
+    os.makedirs(outdir, exist_ok=True)
+    violation = None
+    recfiles = []
+    crash_cases = []
+    for st in cfg["stages"]:
+        params = dict(st.get(tier, {}))
+        nworkers = R.NCPU
+        mode = st["mode"]
+        if mode == "enum":
+            def pw(k, n=nworkers, name=st["name"]):
+                return ["--shard", str(k), "--nshards", str(n), "--set", "out=%s/%s_w%d.rec" % (outdir, name, k)]
+            extra = ["--tier", tier]
+            if params.get("budget"):
+                extra += ["--budget", str(params["budget"] * scale)]
+        else:
+            cases = max(1, int(params.get("cases", 1000) * scale / nworkers))
+            def pw(k, name=st["name"]):
+                return ["--seed", str(R.SEED * 1000003 + k), "--set", "out=%s/%s_w%d.rec" % (outdir, name, k)]
+            extra = ["--tier", tier, "--cases", str(cases), "--max-size", str(params.get("max_size", 300))]
+            if params.get("budget"):
+                extra += ["--budget", str(params["budget"] * scale)]
+        import time
+        t0 = time.time()
+        results = R.run_workers(exe, cfg["variant"], prop, st["name"], mode, nworkers, pw, R.known_args(prop) + extra, timeout=3600)
+        stage_ev = {"stage": st["name"], "mode": mode, "workers": nworkers, "evaluations": 0, "completed": True}
+        for k, rc, stats, rep in results:
+            if os.path.exists(stats):
+                import json
+                s = json.load(open(stats))
+                ev.add_stats(s, stats + ".hashes")
+                stage_ev["evaluations"] += s.get("evaluations", 0)
+                if not s.get("completed", True):
+                    stage_ev["completed"] = False
+            if rc == 1 and os.path.exists(rep):
+                # the compiler itself crashed / aborted on a well-formed program while producing the listing
+                verdict, out = R.confirm_violation(exe, cfg["variant"], prop, rep, R.known_args(prop))
+                if verdict == "fail" and violation is None:
+                    violation = R.save_violation(prop, rep)
+                    R.log(out[-2000:])
+            recfiles.append(os.path.join(outdir, "%s_w%d.rec" % (st["name"], k)))
+        stage_ev["wall_s"] = round(time.time() - t0, 2)
+        if mode == "enum":
+            ev.exhaustive = stage_ev["completed"]
+        ev.stages.append(stage_ev)
+    # oracle
+    t0 = time.time()
+    with multiprocessing.Pool(R.NCPU) as pool:
+        outs = pool.map(_asm_oracle_worker, [(prop, f) for f in recfiles if os.path.exists(f)])
+    checked = sum(o["n"] for o in outs)
+    nrec = sum(o["records"] for o in outs)
+    ev.extra["listings_emitted"] = nrec
+    ev.extra["distinct_listings_judged_by_assembler"] = checked
+    ev.stages.append({"stage": "assembler-oracle", "listings": nrec, "distinct_checked": checked, "wall_s": round(time.time() - t0, 2)})
+    ev.samples = [s for o in outs for s in o["samples"]][:8]
+    known = [e for e in R.load_known(prop) if e.get("status") == "known"]
+    inconclusive = 0
+    groups = {}
+    for o in outs:
+        for p in o["problems"]:
+            if p["inconclusive"]:
+                inconclusive += 1
+                continue
+            sig = _asm_sig(prop, p["msg"], p)
+            kid = None
+            for e in known:
+                for ks in ([e["sig"]] if e.get("sig") else []) + list(e.get("sigs", [])):
+                    if sig.startswith(ks):
+                        kid = e["id"]
+            if kid:
+                cur = ev.known.setdefault(kid, {"count": 0, "example": p["msg"] + "\n" + p["prog"]})
+                cur["count"] += 1
+                continue
+            groups.setdefault(sig, []).append(p)
+    ev.extra["inconclusive_tool_problems"] = inconclusive
+    ev.extra["problem_signatures"] = {k: len(v) for k, v in groups.items()}
+    if groups and violation is None:
+        sig = sorted(groups.keys(), key=lambda k: (len(groups[k][0]["stream"].split()), k))[0]
+        p = min(groups[sig], key=lambda q: len(q["stream"].split()))
+        vdir = os.path.join(R.WORK, "violations")
+        os.makedirs(vdir, exist_ok=True)
+        import hashlib
+        hname = hashlib.sha1((sig + p["stream"]).encode()).hexdigest()[:12]
+        violation = os.path.join(vdir, "%s-%s.case" % (prop, hname))
+        with open(violation, "w") as f:
+            f.write("orcverif-case v1\nproperty %s\nmode asm\nstream %s\nsig %s\n# message: %s\n# target=%s flags=0x%x bits=%d\n" % (
+                prop, p["stream"], sig, p["msg"], p["target"], p["flags"], p["bits"]))
+            for line in p["prog"].split("\n"):
+                f.write("# " + line + "\n")
+        for n_shown, (s, lst) in enumerate(sorted(groups.items())):
+            if n_shown >= 14:
+                R.log("... %d more problem signatures (see evidence problem_signatures)" % (len(groups) - 14))
+                break
+            R.log("%s problem %s (%d listings), e.g.: %s" % (prop, s, len(lst), lst[0]["msg"][:300]))
+    return violation, {e["id"]: ("known" if ev.known.get(e["id"]) else "pass") for e in known}
+
+
+def asm_replay(prop, casefile, cfg):
+    import runner as R
+    import asmcheck, tempfile, shutil, subprocess
+    exe = R.build_driver_binary(prop, cfg["variant"], cfg["sources"], cfg.get("cflags", ()))
+    tmpdir = tempfile.mkdtemp(prefix="asmreplay", dir=R.WORK)
+    try:
+        rec = os.path.join(tmpdir, "r.rec")
+        subprocess.run([exe, "--mode", "replay", "--file", casefile, "--times", "1", "--set", "out=" + rec],
+                       env=R.child_env(cfg["variant"]))
+        recs = asmcheck.parse_records(rec)
+        if prop == "C12":
+            problems, n = asmcheck.check_c12(recs, tmpdir)
+        else:
+            problems, n = asmcheck.check_c11(recs, tmpdir)
+        bad = [p for p in problems if not p[2]]
+        for r, msg, _ in problems:
+            print(msg)
+        if bad:
+            print("VIOLATION property=%s replay=%s" % (prop, casefile))
+            return 1
+        print("REPLAY-PASS (%d listing(s) judged)" % n)
+        return 0
+    finally:
+        shutil.rmtree(tmpdir, ignore_errors=True)
+
+
+_ASM_COMMON = dict(
+    variant="plain",
+    sources=ENGINE + ["props/c12_listing.c"],
+    custom=asm_check,
+    custom_replay=asm_replay,
+    stages=[
+        dict(name="enum-single-opcode", mode="enum", quick=dict(budget=60), thorough=dict(budget=900)),
+        dict(name="rc-programs", mode="rc", quick=dict(cases=40000, max_size=400, budget=40),
+             thorough=dict(cases=1500000, max_size=500, budget=600)),
+    ],
+)
+
+PROPS["C12"] = dict(
+    _ASM_COMMON,
+    cflags=['-DVPROP_ID="C12"'],
+    level="exploration",
+    technique="round-trip / differential: generated programs -> orc listing -> GNU as -> objdump, compared with objdump of orc's own bytes",
+    level_text=("every single-opcode program form x {avx,sse,mmx} x feature subsets x {64,32 bit} x frame pointer x short jumps (quick: "
+                "a covering sample of the non-feature bits, thorough: the full product) plus rapidcheck-generated multi-instruction "
+                "programs are compiled; an independent assembler and disassembler decide whether text and bytes are the same "
+                "instruction sequence. Exploration only: programs not generated are not covered"),
+    level_note=("trusted base: binutils 2.40 `as` and `objdump`; comparison is on decoded instructions (nop padding dropped, branch "
+                "targets as instruction ordinals), so alternative encodings of one instruction do not alarm"),
+    rule=("case = (program, x86 target, flag set); enumerated: every sys opcode (integer and float) as a one-instruction program in every "
+          "operand-kind/prefix/in-place/2-D form x target x flag configurations; generated: rapidcheck choice streams -> well-typed programs "
+          "of 1..40 instructions. Non-trivial = compiled successfully with a non-empty listing and code; distinct = hash of (program, "
+          "target, flags). Oracle: the listing must assemble, and objdump(as(listing)) == objdump(orc bytes) instruction by instruction "
+          "(mnemonic, registers, memory operands, immediates; branch destinations as ordinals of the target instruction)."),
+    assumptions=["non-x86 backends (NEON, MIPS, Altivec) are not judged: llvm-mc dialect differences would make alarms unsound",
+                 "identical (listing, code) pairs are judged once"],
+)
+
+PROPS["C11"] = dict(
+    _ASM_COMMON,
+    cflags=['-DVPROP_ID="C11"'],
+    level="exploration",
+    technique="exhaustive enumeration of opcode forms x feature-flag subsets, judged by GNU as under a flag-derived .arch restriction",
+    level_text=("every single-opcode program form is compiled under every subset of the feature bits of each x86 target; the emitted "
+                "listing must be accepted by an assembler that has only those instruction-set extensions enabled. The enumeration of "
+                "single-opcode forms x feature subsets is complete in both tiers (64-bit); random multi-instruction programs are sampled. "
+                "Result equality across flag subsets is exercised by C01 (reduced-flag variants run natively against emulation)"),
+    level_note=("trusted base: binutils 2.40's classification of instructions into ISA extensions (.arch generic64/.i686 + "
+                ".sse3/.ssse3/.sse4.1/.sse4.2/.avx/.avx2/.3dnowa/.nosse) and, through C12, that the listing is the code"),
+    rule=("case = (program, x86 target, feature-flag subset, 32/64 bit); enumerated exhaustively for one-instruction programs: all "
+          "subsets of {SSE3,SSSE3,SSE4.1,SSE4.2} for sse, {AVX2 on/off} for avx, {MMXEXT,SSSE3,SSE4.1} for mmx; sampled for random programs. "
+          "Non-trivial = successful compile with at least one instruction; distinct = hash of (program, target, flags). Oracle: GNU as with "
+          ".arch derived only from the flags must accept every instruction; mmx listings must not name an xmm/ymm register."),
+    assumptions=["the listing is the emitted code (that is C12)", "32-bit variants are judged statically only"],
+)
